@@ -970,3 +970,104 @@ Proof.
   eapply restarted_child_stable; [exact Sm|].
   exists ci, i. repeat split; auto.
 Qed.
+
+(* ------------------------------------------------------------------------------------ *)
+(* _abort_flow(..., restart_flow=False): everything except the restart is as for _abort_flow *)
+
+Lemma abort_top_true : forall n s f d, abort_top true n s f d = abort n s f d.
+Proof.
+  destruct n as [|n]; simpl; auto. intros s f d.
+  destruct (prologue (abort n) skip_abort s f d) as [[s3 go]|e]; simpl; auto.
+  rewrite Bool.orb_false_r. auto.
+Qed.
+
+Theorem abort_top_srel : forall rk r n (R A : uid -> Prop) s f d s',
+  ranked rk s -> closed R s -> owns R A s -> R f -> abort_top r n s f d = Ok s' -> Srel R A s s'.
+Proof.
+  destruct n as [|n]; simpl; intros R A s f d s' Hr Hc Ho HR H; try discriminate.
+  apply bind_ok in H. destruct H as ([s3 go] & Hp & H). simpl in H.
+  destruct (prologue_srel rk (abort n) (abort_srel rk n) R A _ _ _ _ _ _ Hr Hc Ho HR Hp) as (S & Hgo).
+  destruct go; [|inversion H; subst; auto].
+  destruct (Hgo eq_refl) as (i3 & E3 & Hsk).
+  eapply Srel_trans; [exact S|].
+  eapply epilogue_abort_srel; eauto using skip_abort_live.
+Qed.
+
+Theorem abort_top_children_stop : forall rk r n s f d s',
+  ranked rk s -> abort_top r n s f d = Ok s' -> proceeds s f d = true -> lv s f = true ->
+  lv s' f = false /\ forall x, started_by s f x -> lst s' x = false.
+Proof.
+  intros rk r n s f d s' Hr H Hp Hl.
+  assert (HG : Seg (act0 s) s s' /\ lv s' f = false).
+  { destruct n as [|n]; simpl in H; try discriminate.
+    apply bind_ok in H. destruct H as ([s3 go] & Hpr & H). simpl in H.
+    destruct (prologue_seg rk (abort n) (abort_srel rk n) (abort_good rk n) (act0 s) _ _ _ _ _ _ Hr (act0_zinv s) Hpr)
+      as (G & Hgo & Hstop).
+    destruct go.
+    - destruct (Hgo eq_refl) as (i3 & E3 & Hsk & Hdone).
+      destruct (epilogue_abort_seg (act0 s) _ _ _ _ _ E3 (skip_abort_live _ Hsk) Hdone H) as (G2 & Hlv).
+      split; auto. eapply seg_trans; eauto.
+    - inversion H; subst. split; auto.
+      destruct (Hstop eq_refl Hp) as (i3 & E3 & Hsk).
+      unfold lv. rewrite E3. unfold skip_abort in Hsk. unfold live.
+      destruct (listening (i_status i3)), (is_stopping (i_status i3)); simpl in *; auto; discriminate. }
+  destruct HG as (G & He). split; auto.
+  apply started_chain; auto.
+  intros i c E Hin Hz. destruct G as (_ & _ & G). eapply G; eauto.
+  unfold lv in Hl. rewrite E in Hl; auto.
+Qed.
+
+(* ... and it never emits a restart of f *)
+Theorem abort_top_no_restart : forall rk n s f d s',
+  ranked rk s -> abort_top false n s f d = Ok s' ->
+  exists delta, out s' = out s ++ delta /\ forall src v, ~ In (ERestart f src v) delta.
+Proof.
+  destruct n as [|n]; simpl; intros s f d s' Hr H; try discriminate.
+  apply bind_ok in H. destruct H as ([s3 go] & Hpr & H). simpl in H.
+  rewrite Bool.orb_true_r in H.
+  assert (S : Srel (below rk f) anyA s s3 \/ True) by (right; exact I). clear S.
+  (* the prologue works strictly below f, except for f's own activated count *)
+  destruct (getf s f) as [i|] eqn:E.
+  2:{ unfold prologue, deactivate in Hpr. rewrite E in Hpr. discriminate. }
+  destruct go.
+  - destruct (prologue_out rk n _ _ _ _ _ _ Hr Hpr E) as (pre & i3 & O3 & F3 & E3 & _).
+    unfold epilogue_abort in H. bind_inv H.
+    destruct (unlink_getf_fields _ _ _ _ _ Hb E3) as (i4 & E4 & _).
+    assert (E5 : getf (emit1 (modf s0 f (set_status FStopped)) (EFailed f)) f = Some (set_status FStopped i4)).
+    { rewrite getf_emit1, (modf_some _ _ _ _ E4). eapply getf_setf_same; eauto. }
+    destruct (restart_out _ _ _ _ _ H E5) as (O5 & _).
+    exists (pre ++ [EFailed f]). split.
+    + rewrite O5, app_nil_r, out_emit1, modf_out, (unlink_out _ _ _ Hb), O3, app_assoc. auto.
+    + intros src v Hin. apply in_app_or in Hin. destruct Hin as [Hin|[Hin|[]]]; try discriminate.
+      rewrite Forall_forall in F3. specialize (F3 _ Hin). simpl in F3. unfold below in F3. lia.
+  - inversion H; subst s3.
+    assert (S : Srel anyR anyA s s').
+    { eapply (prologue_srel rk (abort n) (abort_srel rk n) anyR anyA); eauto using anyR_closed, anyA_owns; exact I. }
+    (* early return: only the deactivate prologue ran, which works below f *)
+    unfold prologue in Hpr. apply bind_ok in Hpr. destruct Hpr as ([s1 b] & Hd & Hpr). simpl in Hpr.
+    assert (Hs1 : s1 = s').
+    { destruct b; [|inversion Hpr; auto].
+      destruct (getf s1 f) as [i1|]; try discriminate.
+      destruct (skip_abort (i_status i1)); [inversion Hpr; auto|].
+      bind_inv Hpr. destruct (getf s0 f); try discriminate. bind_inv Hpr. discriminate. }
+    subst s1.
+    unfold deactivate in Hd. rewrite E in Hd.
+    apply bind_ok in Hd. destruct Hd as (isref & Hisref & Hd).
+    destruct isref; [|inversion Hd; subst; exists []; rewrite app_nil_r; split; auto].
+    destruct (i_activated i - 1 =? 0)%Z.
+    + bind_inv Hd. inversion Hd; subst s0.
+      assert (Hpos : (0 < i_activated i)%Z).
+      { destruct d; [|discriminate]. unfold is_ref_activated in Hisref.
+        destruct (0 <? i_activated i)%Z eqn:Ez; [apply Z.ltb_lt in Ez; auto|discriminate]. }
+      assert (Hrm : ranked rk (modf s f (set_activated (i_activated i - 1)%Z))).
+      { eapply srel_ranked; [|exact Hr]. rewrite (modf_some _ _ _ _ E).
+        apply (srel_set_activated anyR anyA); unfold anyR; auto. }
+      assert (Sx : Srel (below rk f) anyA (modf s f (set_activated (i_activated i - 1)%Z)) s').
+      { eapply (abort_same_srel rk (abort n) (abort_srel rk n) (below rk f) anyA (i_flow i) (i_children i));
+          eauto using below_closed, anyA_owns.
+        apply Forall_forall. intros c Hin. eapply Hr; eauto. }
+      destruct Sx as [_ _ (p1 & O1 & F1 & _)]. rewrite modf_out in O1.
+      exists p1; split; auto.
+      intros src v Hin. rewrite Forall_forall in F1. specialize (F1 _ Hin). simpl in F1. unfold below in F1. lia.
+    + inversion Hd; subst. exists []. rewrite modf_out, app_nil_r. split; auto.
+Qed.
